@@ -4,7 +4,7 @@
    are ALGEBRA about the formulas the code evaluates: the results of eig / inv / solve / eigh are universally
    quantified and constrained only by their defining equations (hypotheses named after the call that produces them).
    Carrier: Q (an ordered field; nothing specific to Q is used except field/order reasoning). *)
-From Coq Require Import ZArith QArith Qabs List Arith Bool Lia.
+From Coq Require Import ZArith QArith Qabs List Arith Bool Lia Lqa.
 From BCT Require Import Base.Mat Base.SumQ Model.Walks Model.Linear Proofs.Walks Proofs.Linear Proofs.LinearSpectral.
 Import ListNotations.
 
@@ -187,10 +187,13 @@ Example C18_nonvacuous_eigvec :
   (forall x : vec Q, qform 2 A x <= 1 * normsq 2 x) /\
   (forall x : vec Q, qform 2 A x == 1 * normsq 2 x -> forall i, (i < 2)%nat -> mvecQ 2 A x i == 1 * x i).
 Proof.
-  cbv zeta. unfold qform, normsq, mvecQ. cbn [sumQ Nat.eqb]. split.
-  - intros x. assert (H : 0 <= (x 0%nat - x 1%nat) * (x 0%nat - x 1%nat)) by nra. nra.
+  cbv zeta. unfold qform, normsq, mvecQ. cbn [sumQ Nat.eqb].
+  assert (Hsq : forall y : Q, 0 <= y * y) by (intros y; unfold Qle, Qmult; cbn [Qnum Qden]; nia).
+  assert (Hex : forall a b : Q, (a - b) * (a - b) == a * a - (a * b + b * a) + b * b) by (intros; ring).
+  split.
+  - intros x. pose proof (Hsq (x 0%nat - x 1%nat)) as H. rewrite Hex in H. lra.
   - intros x H i Hi.
-    assert (E : (x 0%nat - x 1%nat) * (x 0%nat - x 1%nat) == 0) by nra.
+    assert (E : (x 0%nat - x 1%nat) * (x 0%nat - x 1%nat) == 0) by (rewrite Hex; lra).
     apply Qmult_integral in E. assert (E' : x 0%nat == x 1%nat) by (destruct E; lra).
     destruct i as [|[|i]]; [| |lia]; cbn [Nat.eqb]; lra.
 Qed.
